@@ -127,3 +127,94 @@ def run_traced(fn, args, world, code_filter=None, on_line=None):
     finally:
         sys.settrace(old)
     return res[0], res[1], events
+
+
+# ---------------------------------------------------------------------------------------------
+# CPython as oracle for variable events: every read / write / delete of a local (or closure)
+# variable that a call really performs, in order, with the line that performed it.
+
+_READ_OPS = {'LOAD_FAST', 'LOAD_FAST_CHECK', 'LOAD_DEREF', 'LOAD_CLASSDEREF', 'LOAD_FAST_AND_CLEAR'}
+_WRITE_OPS = {'STORE_FAST', 'STORE_DEREF'}
+_DEL_OPS = {'DELETE_FAST', 'DELETE_DEREF'}
+_GLOBAL_READ = {'LOAD_GLOBAL', 'LOAD_NAME'}
+_GLOBAL_WRITE = {'STORE_GLOBAL', 'STORE_NAME'}
+
+
+def _instr_table(code):
+    import dis
+    tab = {}
+    for ins in dis.get_instructions(code):
+        tab[ins.offset] = (ins.opname, ins.argval)
+    return tab
+
+
+def run_var_events(fn, args, world=None, include_nested=True):
+    """Calls fn(*args) tracing every executed bytecode instruction of fn's own code object (and, if
+    include_nested, of code objects nested in it).  Returns (kind, value, events) where events is a
+    list of tuples:
+       ('line', code_name, lineno)                 a new line starts executing
+       ('R'|'W'|'D', code_name, lineno, var)       local / cell variable read, written, deleted
+       ('GR'|'GW', code_name, lineno, var)         global read / write
+       ('call', code_name, lineno) / ('ret', code_name, lineno)
+    Reads performed by LOAD_FAST_AND_CLEAR (comprehension inlining, 3.12) are flagged 'RC'."""
+    root = fn.__code__
+    codes = {root}
+    if include_nested:
+        todo = [root]
+        while todo:
+            c = todo.pop()
+            for k in c.co_consts:
+                if hasattr(k, 'co_code') and k not in codes:
+                    codes.add(k)
+                    todo.append(k)
+    tables = {c: _instr_table(c) for c in codes}
+    events = []
+    mon = sys.monitoring
+    tool = mon.DEBUGGER_ID
+    EV = mon.events
+    cur_line = {}
+
+    def on_start(code, offset):
+        events.append(('call', code.co_name, code.co_firstlineno))
+
+    def on_return(code, offset, retval):
+        events.append(('ret', code.co_name, cur_line.get(code, code.co_firstlineno)))
+
+    def on_line(code, line):
+        cur_line[code] = line
+        events.append(('line', code.co_name, line))
+
+    def on_instr(code, offset):
+        op, argval = tables[code].get(offset, (None, None))
+        line = cur_line.get(code, code.co_firstlineno)
+        if op in _READ_OPS:
+            events.append(('RC' if op == 'LOAD_FAST_AND_CLEAR' else 'R', code.co_name, line, argval))
+        elif op in _WRITE_OPS:
+            events.append(('W', code.co_name, line, argval))
+        elif op in _DEL_OPS:
+            events.append(('D', code.co_name, line, argval))
+        elif op in _GLOBAL_READ:
+            events.append(('GR', code.co_name, line, argval))
+        elif op in _GLOBAL_WRITE:
+            events.append(('GW', code.co_name, line, argval))
+
+    mon.use_tool_id(tool, 'verif')
+    try:
+        mon.register_callback(tool, EV.PY_START, on_start)
+        mon.register_callback(tool, EV.PY_RETURN, on_return)
+        mon.register_callback(tool, EV.LINE, on_line)
+        mon.register_callback(tool, EV.INSTRUCTION, on_instr)
+        for c in codes:
+            mon.set_local_events(tool, c, EV.PY_START | EV.PY_RETURN | EV.LINE | EV.INSTRUCTION)
+        try:
+            v = fn(*args)
+            res = ('return', v)
+        except BaseException as e:   # noqa
+            res = ('raise', type(e).__name__)
+    finally:
+        for c in codes:
+            mon.set_local_events(tool, c, 0)
+        for e in (EV.PY_START, EV.PY_RETURN, EV.LINE, EV.INSTRUCTION):
+            mon.register_callback(tool, e, None)
+        mon.free_tool_id(tool)
+    return res[0], res[1], events
